@@ -55,6 +55,27 @@ fn main() {
         }
     }
     extra_files.sort();
+    for f in &extra_files {
+        krate.global_problems.push(format!("source file `{}` is not read by the translator", f));
+    }
+    // the resolved version of winnow (Cargo.lock next to src/)
+    match fs::read_to_string(format!("{}/../Cargo.lock", src)) {
+        Ok(lock) => {
+            let mut found = vec![];
+            let lines: Vec<&str> = lock.lines().collect();
+            for (i, l) in lines.iter().enumerate() {
+                if l.trim() == "name = \"winnow\"" {
+                    if let Some(v) = lines.get(i + 1) {
+                        found.push(v.trim().trim_start_matches("version = ").trim_matches('"').to_string());
+                    }
+                }
+            }
+            if found != vec![config::WINNOW_VERSION.to_string()] {
+                krate.global_problems.push(format!("Cargo.lock resolves winnow to {:?}; the combinators are described for {}", found, config::WINNOW_VERSION));
+            }
+        }
+        Err(_) => krate.global_problems.push("Cargo.lock not found next to src/".into()),
+    }
 
     let mut lean = String::new();
     lean.push_str("import SemverGen.RustPrelude\nimport SemverGen.Winnow\nimport SemverGen.Bytes\n");
